@@ -37,7 +37,7 @@ def tla_set(xs):
 
 
 def gen_run(wd, name, templates, editions=(4,), compressions=(False, True), subset_counts=(1, 2),
-            fmax=2, seeds=(0,), slack=0, mversion=33, local=None, reset='fm94', invariants=None, value_mode='classes',
+            fmax=2, seeds=(0,), slack=0, mversion=33, local=None, reset='fm94', invariants=None, value_mode='classes', emit='Emit', properties=(),
             workers=16, timeout=3000, coverage=False):
     consts = base_consts(
         Cases='<<' + ', '.join('[ids |-> %s]' % tlc.tla_val(list(t)) for t in templates) + '>>',
@@ -47,8 +47,8 @@ def gen_run(wd, name, templates, editions=(4,), compressions=(False, True), subs
     text = tlc.mc_module(name, ['FM94Gen'], consts)
     invs = list(invariants if invariants is not None else
                 ['TypeOK', 'MissingIffAllOnes', 'LinksPointBack', 'CursorIsSumOfWidths',
-                 'ProducedBitsMatchCursor', 'FramesNested']) + ['Emit']
-    cfg = tlc.mc_cfg(consts, invariants=invs)
+                 'ProducedBitsMatchCursor', 'FramesNested']) + ([emit] if emit else [])
+    cfg = tlc.mc_cfg(consts, invariants=invs, properties=properties)
     res = tlc.run(wd, name, cfg, text, workers=workers, lazy_emitted=True, coverage=coverage, timeout=timeout)
     tlc.require_ok(res, name)
     return res
